@@ -34,6 +34,9 @@ type NCOp struct {
 	PersistID   string `json:"persist_id,omitempty"`
 	TimeoutUS   int64  `json:"timeout_us,omitempty"`
 	IdleUS      int64  `json:"idle_us,omitempty"`
+	// HoldWaitUS > 0: sched-hold fault for this call only: the caller is descheduled this long at
+	// the point where it starts waiting for the reply
+	HoldWaitUS int64 `json:"hold_wait_us,omitempty"`
 }
 
 // NCSession is the scenario type of the NETCONF properties.
@@ -84,6 +87,7 @@ type NCRec struct {
 
 // NCRun is everything a NETCONF session run produced.
 type NCRun struct {
+	holdWait time.Duration
 	Sc      *NCSession
 	Srv     *peer.Netconf
 	Tr      *simnet.T
@@ -144,7 +148,7 @@ func (sc *NCSession) Deadline() time.Duration {
 	// short: the RPC reply poller runs every 5us, so waiting out a long fake deadline is expensive
 	d := 3*sc.connTimeout() + 600*time.Millisecond
 	for i := range sc.Ops {
-		d += sc.effTimeout(&sc.Ops[i]) + Micro(sc.Ops[i].IdleUS)
+		d += sc.effTimeout(&sc.Ops[i]) + Micro(sc.Ops[i].IdleUS) + Micro(sc.Ops[i].HoldWaitUS)
 	}
 
 	return d
@@ -158,10 +162,20 @@ func StartNC(env *Env, sc *NCSession) (*NCRun, <-chan struct{}) {
 	env.AtEnd = append(env.AtEnd, nr.Tr.Kill)
 	rd := sc.readDelay()
 	env.K.PollQ = rd
-	if len(sc.Holds) > 0 {
+	perCall := false
+	for i := range sc.Ops {
+		perCall = perCall || sc.Ops[i].HoldWaitUS > 0
+	}
+	if len(sc.Holds) > 0 || perCall {
 		hr := kernel.Stream(sc.SchedSeed, "hold")
 		holds := sc.Holds
 		env.K.HoldFn = func(base, point string) time.Duration {
+			if base == "user" && point == "nc.rpc.wait" && nr.holdWait > 0 {
+				d := nr.holdWait
+				nr.holdWait = 0
+
+				return d
+			}
 			for _, h := range holds {
 				if h.Base == base && h.Point == point && hr.IntN(100) < h.Pct {
 					return time.Duration(h.DurNS)
@@ -230,6 +244,7 @@ func (nr *NCRun) workload(env *Env) {
 			o = append(o, opoptions.WithTimeoutOps(oddTimeout(Micro(op.TimeoutUS))))
 		}
 		isReq := false
+		nr.holdWait = Micro(op.HoldWaitUS)
 		ok := env.Call(op.Kind, func() {
 			var r *response.NetconfResponse
 			var err error
